@@ -1496,6 +1496,8 @@ def check_macros(ctx, systems, label):
             key = kind + ":" + json.dumps(strs)
             ctx.case(("macro", key), nontrivial=len(rows) >= 2)
             rp = {"kind": "macro", "macro": kind, "rows": rows, "strict": strict, "terms": strs}
+            orig_deque = simplex.deque
+            simplex.deque = BudgetDeque          # integer_simplex runs branch_and_bound, whose bare `except:` swallows a timeout
             try:
                 with time_limit(120):
                     tms = [parse_term(t) for t in strs]
@@ -1505,12 +1507,17 @@ def check_macros(ctx, systems, label):
                         res = simplex_strict.StrictSimplexMacro().get_proof_term(args=tms)
                     else:
                         res = simplex.IntegerSimplexMacro().get_proof_term(args=tms)
+                        if BudgetDeque.last.exhausted:
+                            ctx.count("macro:int:gave-up")
+                            continue
             except Timeout:
                 ctx.count("macro:%s:timeout" % kind)
                 continue
             except Exception as e:  # noqa
                 ctx.count("macro:%s:raise:%s" % (kind, type(e).__name__))
                 continue
+            finally:
+                simplex.deque = orig_deque
             if isinstance(res, ProofTerm):
                 ctx.count("macro:%s:proof" % kind)
                 try:
